@@ -29,10 +29,15 @@ type connopsCfg struct {
 	presence   bool
 	joinLeave  bool
 	horizon    time.Duration // virtual-time window during the concurrent phase (timer-first deviations)
+	delta      bool          // the actor subscribes with fossil delta (positioned channels)
 }
 
 func (c connopsCfg) name() string {
-	return fmt.Sprintf("%s/presub%v/async%v/pos%v/pres%v/jl%v/h%d", strings.Join(c.ops, "+"), c.presub, c.async, c.positioned, c.presence, c.joinLeave, c.horizon/time.Second)
+	n := fmt.Sprintf("%s/presub%v/async%v/pos%v/pres%v/jl%v/h%d", strings.Join(c.ops, "+"), c.presub, c.async, c.positioned, c.presence, c.joinLeave, c.horizon/time.Second)
+	if c.delta {
+		n += "/delta"
+	}
+	return n
 }
 
 var connopsCfgs = map[string]connopsCfg{}
@@ -48,7 +53,7 @@ type connopsSet struct {
 
 func connopsRegister(s connopsSet) {
 	mk := func(tier string) []vsched.Variant {
-		cfgs, bound, shards, budget := s.quick, s.qBound, 2, 40
+		cfgs, bound, shards, budget := s.quick, s.qBound, 1, 75
 		if tier == "thorough" {
 			cfgs, bound, shards, budget = append(append([]connopsCfg{}, s.quick...), s.thor...), s.tBound, 8, 280
 		}
@@ -77,12 +82,14 @@ func init() {
 		return connopsCfg{ops: ops, presub: presub, async: async, positioned: pos, presence: true, joinLeave: true}
 	}
 	withH := func(x connopsCfg, h time.Duration) connopsCfg { x.horizon = h; return x }
+	withDelta := func(x connopsCfg) connopsCfg { x.delta = true; return x }
 	connopsRegister(connopsSet{prop: "C04", qBound: 1, tBound: 2,
 		doc: "marker delivered to A iff A reports itself subscribed, at most once; exactly one hub routing entry with A's generation iff subscribed; none for a closed connection",
 		quick: []connopsCfg{
 			c(false, true, false, "sub,unsub"), c(false, false, false, "sub", "nunsub"), c(false, false, false, "sub", "nsub"), c(true, false, false, "unsub", "nsub"),
 			c(false, false, false, "nsub", "nunsub"), c(false, true, false, "sub", "disc"), c(true, true, false, "unsub,sub", "nunsub"), c(false, true, true, "sub,unsub"),
 			withH(c(false, true, false, "sub,unsub,sub"), 6*time.Second),
+			withDelta(c(true, false, true, "unsub", "pub")), withDelta(c(true, false, false, "unsub", "pub")),
 		},
 		thor: []connopsCfg{
 			c(false, true, false, "sub,unsub", "nsub"), c(true, false, false, "unsub", "nsub", "disc"), c(false, true, true, "sub,unsub", "pub"),
@@ -94,6 +101,7 @@ func init() {
 			c(false, false, false, "sub", "pub"), c(false, false, true, "sub", "pub"), c(true, false, false, "unsub", "pub"), c(true, false, true, "unsub", "pub"),
 			c(false, false, false, "nsub", "pub"), c(true, false, false, "nunsub", "pub"), c(false, false, false, "sub", "ojoin"), c(true, false, false, "unsub", "ojoin"),
 			c(true, false, false, "unsub,sub", "pub"), c(false, true, false, "sub,unsub", "pub"),
+			c(false, false, true, "nsub", "pub"), c(true, false, true, "nunsub", "pub"),
 		},
 		thor: []connopsCfg{
 			c(false, true, true, "sub,unsub", "pub"), c(false, false, false, "nsub", "pub", "nunsub"), c(true, false, true, "unsub,sub", "pub"), c(false, true, false, "sub,unsub", "pub", "ojoin"),
@@ -147,6 +155,9 @@ func connopsBody(cfg connopsCfg, prop string) func() {
 				o.EnableRecovery = true
 				o.EnablePositioning = true
 			}
+			if cfg.delta {
+				o.AllowedDeltaTypes = []DeltaType{DeltaTypeFossil}
+			}
 			return o
 		}
 		n.OnConnect(func(c *Client) {
@@ -194,6 +205,9 @@ func connopsBody(cfg connopsCfg, prop string) func() {
 		subGauge1 := vGaugeSum(n.metrics.subscriptionsInflight)
 		act := vNewClient(n, vNewTransport(), &Credentials{UserID: "u"})
 		act.connect()
+		if cfg.delta {
+			act.delta = string(DeltaTypeFossil)
+		}
 		actorID = act.c.ID()
 		pubN := 0
 		publish := func(tag string) {
@@ -201,9 +215,9 @@ func connopsBody(cfg connopsCfg, prop string) func() {
 			data := []byte(fmt.Sprintf(`{"%s":%d}`, tag, pubN))
 			var err error
 			if cfg.positioned {
-				_, err = n.Publish(ch, data, WithHistory(10, time.Minute))
+				_, err = n.Publish(ch, data, WithHistory(10, time.Minute), WithDelta(cfg.delta))
 			} else {
-				_, err = n.Publish(ch, data)
+				_, err = n.Publish(ch, data, WithDelta(cfg.delta))
 			}
 			if err != nil {
 				panic(err)
